@@ -377,6 +377,10 @@ impl<'a> Builder<'a> {
         Builder { gen, now: Time::now(), stale, image: Image::default(), serial: 100 }
     }
 
+    pub fn at(gen: &'a Gen, stale: Stale, now: Time) -> Self {
+        Builder { gen, now, stale, image: Image::default(), serial: 100 }
+    }
+
     fn next_serial(&mut self) -> u64 { self.serial += 1; self.serial }
 
     pub fn build(mut self, spec: &TreeSpec) -> Image {
